@@ -154,6 +154,11 @@ class TransmissionModel(SimpleForwardModel):
         return ((pradius**2.0) + integral)/(sradius**2), tau
 
 
+    def write(self, output):
+        model = super().write(output)
+        model.write_scalar('new_path_method', self.new_method)
+        return model
+
     @classmethod
     def input_keywords(self):
         return ['transmission', 'transit' ]
